@@ -17,7 +17,12 @@ ASSUME = ["secp256k1 ECDSA / BIP340 verification: spec/CryptoPrims.java (differe
 
 
 def make_jobs(chk):
-    return gen_sig.ecdsa_jobs(chk) + gen_sig.multisig_jobs(chk) + gen_sig.taproot_jobs(chk)
+    jobs = gen_sig.ecdsa_jobs(chk) + gen_sig.multisig_jobs(chk) + gen_sig.taproot_jobs(chk)
+    # every fourth execution is run to completion in one go instead of stepped (the non-interactive path)
+    for i, j in enumerate(jobs):
+        if i % 4 == 3:
+            j.cmds = ["run"]
+    return jobs
 
 
 def run(chk):
